@@ -12,6 +12,7 @@
   happens in that iteration.
 -/
 import MainlineModel.Props.C14Node
+import MainlineModel.Props.C13
 namespace Mainline.Props.C13Join
 open Mainline Mainline.Actor Mainline.Props.C12 Mainline.Props.C14Node
 
@@ -139,5 +140,102 @@ theorem first_answer_fills_table (a : Actor) (now0 : Nat) (hk : TOk a.core now0)
   intro h
   rw [h] at this
   cases this
+
+
+/-! ### the other direction: the first node of a network learns whoever bootstraps from it -/
+
+theorem verifySelfPing_findNode (c : Core) (src : Addr) (rid target : Id) (now : Nat) :
+    (verifySelfPing c src { requesterId := rid, rtype := .findNode target } now).1 = c ∨
+    (verifySelfPing c src { requesterId := rid, rtype := .findNode target } now).1.rt = c.rt := by
+  unfold verifySelfPing
+  split
+  · split
+    · rename_i h
+      simp [isPingReq] at h
+    · exact Or.inl rfl
+  · exact Or.inl rfl
+
+/-- **A first node learns its joiners.**  A node in server mode without a bootstrap list that receives a
+    `find_node` request which is not flagged read-only, is allowed by the request filter and comes from an
+    address with a non-zero port, has the requester — under the id it is looking for, its own — in its
+    routing table at the end of that iteration, if `RoutingTable::add` takes it (it always does when the
+    table is empty and the id is not this node's). -/
+theorem first_node_learns_joiner (a : Actor) (now0 : Nat) (hk : TOk a.core now0) (env : Env) (hnow : now0 ≤ env.now)
+    (m : Message) (src : Addr) (msg : Option ApiMsg) (rid target : Id)
+    (hs : a.core.serverMode = true) (hb : a.core.bootstrap.isEmpty = true)
+    (hm : m.mtype = .request { requesterId := rid, rtype := .findNode target }) (hro : m.readOnly = false)
+    (hport : src.port ≠ 0) (hallow : a.core.allow { requesterId := rid, rtype := .findNode target } src = true)
+    (hrid : rid.bytes.length = 20) (htid : target.bytes.length = 20)
+    (hadd : (a.core.rt.add { id := target, addr := src, lastSeen := env.now } env.now).2 = true) :
+    ({ id := target, addr := src, lastSeen := env.now } : Node) ∈ (a.step env (some (m, src)) msg).core.rt.entries := by
+  have hk' := hk.mono hnow
+  have hwf : DgramWf (some (m, src)) := by
+    intro m' src' he
+    simp only [Option.some.injEq, Prod.mk.injEq] at he
+    obtain ⟨rfl, rfl⟩ := he
+    refine ⟨?_, ?_⟩
+    · intro j hj
+      unfold authorId at hj
+      rw [hm] at hj
+      simp only [Option.some.injEq] at hj
+      subst hj; exact hrid
+    · intro req t hreq ht
+      rw [hm] at hreq
+      injection hreq with hreq
+      subst hreq
+      simp only [RequestType.findNode.injEq] at ht
+      subst ht; exact htid
+  have hrecv : (a.recvPhase env.now (some (m, src))).2 = some (m, src) := by
+    unfold recvPhase
+    simp only [hm]
+    unfold Inflight.decide
+    have : (src.port == 0) = false := by simpa using hport
+    simp [this]
+  have hpre : ({ id := target, addr := src, lastSeen := env.now } : Node) ∈ (a.preDone env (some (m, src))).core.rt.entries := by
+    unfold preDone
+    rw [C06Time.forwardValue_core, hrecv]
+    obtain ⟨_, rc, _, _⟩ := recvPhase_time a env.now (some (m, src))
+    generalize (a.recvPhase env.now (some (m, src))).1 = a1 at rc
+    unfold handleIncoming
+    simp only [hm]
+    have hcore : (a1.handleIncomingRequest env m src { requesterId := rid, rtype := .findNode target }).core.rt
+        = (handleRequest a1.core env src m.readOnly m.version { requesterId := rid, rtype := .findNode target }).1.rt := by
+      unfold handleIncomingRequest
+      split
+      · have := populate_tbl (sendReply { a1 with core := (handleRequest a1.core env src m.readOnly m.version
+            { requesterId := rid, rtype := .findNode target }).1 } src m.tid
+          (handleRequest a1.core env src m.readOnly m.version { requesterId := rid, rtype := .findNode target }).2.1) env.now
+        unfold tbl at this
+        simp only [Prod.mk.injEq] at this
+        rw [this.1, sendReply_core]
+      · rw [sendReply_core]
+    rw [hcore, rc]
+    unfold handleRequest
+    simp only [hallow, Bool.not_true, Bool.false_eq_true, ite_false]
+    have hrt : (serveRequest (verifySelfPing (maybeAddNodeFromRequest a.core src m.version m.readOnly
+          { requesterId := rid, rtype := .findNode target } env.now) src { requesterId := rid, rtype := .findNode target } env.now).1
+        env src { requesterId := rid, rtype := .findNode target }
+        (verifySelfPing (maybeAddNodeFromRequest a.core src m.version m.readOnly
+          { requesterId := rid, rtype := .findNode target } env.now) src { requesterId := rid, rtype := .findNode target } env.now).2).1.rt
+        = (maybeAddNodeFromRequest a.core src m.version m.readOnly { requesterId := rid, rtype := .findNode target } env.now).rt := by
+      have h1 : ∀ (c : Core) (b : Bool), (serveRequest c env src { requesterId := rid, rtype := .findNode target } b).1.rt = c.rt := by
+        intro c b; unfold serveRequest; split <;> rfl
+      rw [h1]
+      rcases verifySelfPing_findNode (maybeAddNodeFromRequest a.core src m.version m.readOnly
+        { requesterId := rid, rtype := .findNode target } env.now) src rid target env.now with h | h
+      · rw [h]
+      · exact h
+    rw [hrt, hro, C13.first_node_learns_requester_partial a.core hs hb src m.version rid target env.now]
+    exact C14.add_true_mem a.core.rt hk'.inv _ env.now hadd
+  have hkpre := preDone_tok a env hk' (some (m, src)) hwf
+  have hrest : tbl ((a.afterRecv env (some (m, src))).pickup env msg).core = tbl (a.preDone env (some (m, src))).core := by
+    unfold afterRecv
+    rw [pickup_tbl, finishTick_tbl, visitClosestAll_tbl]
+  rw [C06Time.step_core]
+  apply maintenance_keeps_fresh _ env.now (TOk.of_tbl hrest hkpre)
+  · have : ((a.afterRecv env (some (m, src))).pickup env msg).core.rt = (a.preDone env (some (m, src))).core.rt := by
+      unfold tbl at hrest; simp only [Prod.mk.injEq] at hrest; exact hrest.1
+    rw [this]; exact hpre
+  · simp [Node.isStale, Node.age]
 
 end Mainline.Props.C13Join
